@@ -16,15 +16,17 @@ namespace OsmoVerif.Props.C06Osmocon
 open OsmoVerif OsmoVerif.Sercomm OsmoVerif.Osmocon OsmoVerif.Gen.Sercomm OsmoVerif.Gen.Osmocon
 open OsmoVerif.Msgb OsmoVerif.SercommMsgb
 
-/-- The constants of the current tree: 256 octets per `write()`, messages up to 512 octets accepted and
-a buffer of exactly that tailroom allocated for them (so `msgb_put(msg, len)` cannot abort), a window of
-7 octets that every prompt table fills completely, and the prompt that leaves HDLC mode contains a zero
-octet (which the link never puts on the wire unescaped). -/
+/-- What the theorems below need of the constants of the current tree (regenerated on every run): every
+length `hdlc_send_to_phone` accepts fits the tailroom of the buffer it allocates (so `msgb_put(msg, len)`
+cannot abort), that allocation is one `sercomm_alloc_msgb` can serve, `handle_sercomm_write` offers at
+least one octet per call, the window is as long as every prompt table, and the prompt that leaves HDLC mode
+contains a zero octet (which the link never puts on the wire unescaped).  The values themselves (512, 512,
+256, 7 today) are not pinned: a different chunk size or a larger bound with a matching allocation is the
+same link. -/
 theorem constants :
-    writeBuf = 256 ∧ sendMax = 512 ∧ sendAlloc = 512 ∧ sendMax ≤ sendAlloc ∧ 1 ≤ sendAlloc ∧ sendAlloc ≤ 65531 ∧
-    window = 7 ∧
+    sendMax ≤ sendAlloc ∧ 1 ≤ sendAlloc ∧ sendAlloc ≤ 65531 ∧ 1 ≤ writeBuf ∧ 1 ≤ window ∧
     [phonePrompt1, phonePrompt2, phoneAck, phoneNack, phoneNackMagic, ftmtool].all (·.length == window) = true ∧
-    0 ∈ phonePrompt1 ∧ stWaitingPrompt1 = 0 := by
+    0 ∈ phonePrompt1 := by
   decide
 
 /-! ## `handle_sercomm_write` -/
@@ -80,7 +82,7 @@ theorem write_lossless_full_fails : ¬ write_lossless_full := by
 /-- what the witness does on the line and in the transmitter -/
 theorem short_write_witness :
     (sendmsg (Tx.init nTxQueues) 5 [0x41]).map (·.queues) = some txOneMsg.queues ∧
-    (pullN 256 txOneMsg).2 = [0x7E, 0x05, 0x03, 0x41, 0x7E] ∧
+    (pullN 16 txOneMsg).2 = [0x7E, 0x05, 0x03, 0x41, 0x7E] ∧
     (handleSercommWrite txOneMsg wrTwo).offered = [0x7E, 0x05, 0x03, 0x41, 0x7E] ∧
     (handleSercommWrite txOneMsg wrTwo).line = [0x7E, 0x05] ∧
     (handleSercommWrite txOneMsg wrTwo).short = true ∧
@@ -97,7 +99,7 @@ theorem short_write_corrupts_next :
 
 /-! ## `hdlc_send_to_phone` -/
 
-/-- **The exact bound.** For `−2^31 ≤ len`: `len > 512` → the message is dropped (nothing allocated,
+/-- **The exact bound** (`sendMax` = 512 in this tree). For `−2^31 ≤ len`: `len > 512` → the message is dropped (nothing allocated,
 nothing queued, write not enabled); `0 ≤ len ≤ 512` (and that many octets in the caller's array, DLCI
 inside the queue array) → queued without any msgb fault, as the abstract `sercomm_sendmsg` of
 `data[0 .. len)`; `len < 0` → the `(int)` comparison in `msgb_put` lets it pass and the tail pointer
@@ -106,9 +108,9 @@ exactly 512 octets of tailroom plus 4 of headroom, the accepted bound is the all
 not "512 minus headroom". -/
 theorem hdlc_send_exact_bound {ct : CTx} {t : Tx} (hr : TxRel ct t) (dlci : Nat) (data : List Nat) (len : Int)
     (hlo : -2147483648 ≤ len) :
-    (len > 512 → hdlcSendToPhone ct dlci data len = .tooMuch) ∧
+    (len > (sendMax : Int) → hdlcSendToPhone ct dlci data len = .tooMuch) ∧
     (len < 0 → hdlcSendToPhone ct dlci data len = .fault (.msgb .oob)) ∧
-    (0 ≤ len → len ≤ 512 → len.toNat ≤ data.length → dlci < ct.queues.length →
+    (0 ≤ len → len ≤ (sendMax : Int) → len.toNat ≤ data.length → dlci < ct.queues.length →
       ∃ ct' t', hdlcSendToPhone ct dlci data len = .sent ct' ∧
         sendmsg t dlci (data.take len.toNat) = some t' ∧ TxRel ct' t') :=
   ⟨fun h => hdlcSend_tooMuch ct dlci data h, fun h => hdlcSend_negative ct dlci data h hlo,
@@ -121,13 +123,11 @@ theorem hdlc_send_exact_bound {ct : CTx} {t : Tx} (hr : TxRel ct t) (dlci : Nat)
 target build (never delivered; from 257 on it also costs the frame that follows, `overlong_bounded`). -/
 theorem hdlc_send_over_256_never_arrives_on_target (d : Nat) (p : List Nat)
     (ht : Spec.Sercomm.Transparent d) (hreg : Props.C06.cfgTarget.reg d = true) (hnh : d < Props.C06.cfgTarget.nh)
-    (hl : 256 ≤ p.length) :
+    (hl : Props.C06.cfgTarget.cap ≤ p.length) :
     Sercomm.evDeliveries (feed Props.C06.cfgTarget.toRxCfg Rx.init (Spec.Sercomm.frame ⟨d, p⟩)).2 = [] := by
   have h := (frame_outcome Props.C06.cfgTarget.toRxCfg (by decide) (by decide) Rx.init false ⟨rfl, rfl⟩ ⟨d, p⟩ ht hreg hnh).2
   rw [h]
-  have : ¬ p.length < Props.C06.cfgTarget.cap := by
-    have : Props.C06.cfgTarget.cap = 256 := by decide
-    omega
+  have : ¬ p.length < Props.C06.cfgTarget.cap := by omega
   simp [completeDelivers, this]
 
 /-- osmocon's `hdlc_tool_cb` pushes a 2 octet length in front of a delivered buffer (`msgb_push(msg, 2)`):
